@@ -594,10 +594,10 @@ class MultiSetup_PreGER(BaseSetup, GeometryMixin):
         For further information, see `scipy.signal.decimate
         <https://docs.scipy.org/doc/scipy/reference/generated/scipy.signal.decimate.html>`_.
         """
-        n = kwargs.get("n")
-        ftype = kwargs.get("ftype", "iir")
-        axis = kwargs.get("axis", 0)
-        zero_phase = kwargs.get("zero_phase", True)
+        n = kwargs.pop("n", None)
+        ftype = kwargs.pop("ftype", "iir")
+        axis = kwargs.pop("axis", 0)
+        zero_phase = kwargs.pop("zero_phase", True)
 
         newdatasets = []
         Ndats = []
@@ -619,7 +619,7 @@ class MultiSetup_PreGER(BaseSetup, GeometryMixin):
 
         Y = pre_multisetup(newdatasets, self.ref_ind)
         fs = self.fs / q
-        dt = 1 / self.fs
+        dt = 1 / fs
 
         self.datasets = newdatasets
         self.data = Y
